@@ -103,6 +103,18 @@ def gen_qr(rng, pools, p_present=0.6, base_ts=None, tps=1000000, full=False):
                     r[k] += [(nm, 1, 1, j, None), (nm, 1, 1, None, rbytes(rng, pools.names))]
             if k in ("qq", "rq"):
                 r[k] = [(n_, t, c, None, None) for (n_, t, c, _, _) in r[k]]
+    # the record's own values met again in another member, as in real traffic: the EDNS OPT pseudo-RR (type 41, class = UDP size,
+    # RDATA = the OPT RDATA the signature also carries) in the additional sections - alone or among other records -, the query name
+    # as owner name of a resource record, client and server address equal
+    if "ord" in r and rng.random() < 0.4:
+        opt = (b"\x00", 41, r.get("us", 4096) % 65536, rng.choice([0, 0x8000, None]), r["ord"])
+        for k in rng.sample(["qx", "rx"], rng.choice([1, 2])):
+            r[k] = rng.choice([[opt], r.get(k, []) + [opt], [opt] + r.get(k, [])])
+    if "qn" in r and rng.random() < 0.2:
+        k = rng.choice(["qa", "ra", "ru", "rx"])
+        r[k] = r.get(k, []) + [(r["qn"], 1, 1, 300, r["qn"] if rng.random() < 0.5 else None)]
+    if "cip" in r and "sip" in r and rng.random() < 0.1:
+        r["sip"] = r["cip"]
     if on(): r["asn"] = rbytes(rng, [b"AS1234", b""])
     if on(): r["cc"] = rbytes(rng, [b"CZ", b"US"])
     if on(): r["rtt"] = rng.choice([0, -5, 2**63 - 1, -2**63, 77])
